@@ -300,6 +300,7 @@ class Report:
 
     def __init__(self, ctx, level="model_checking"):
         self.ctx = ctx
+        ctx.report = self
         self.level = level
         self.evaluations = 0
         self.distinct = 0
